@@ -24,6 +24,7 @@ ASSUMPTIONS = [
     "state keys are 64-bit hashes (PYTHONHASHSEED=0)",
 ]
 OBLIGATIONS = {
+    "peer_gone_while_others_live": "a peer's receive loop ended and a new peer connected while other peers were still connected",
     "both_in_flight": "two peers' messages were both between receipt and dispatch at the same time in some schedule",
     "both_queue_orders": "a scope with queued messages from two peers showed both queue orders",
     "preempted_between_append_and_test": "a thread switch happened while a thread was inside recv_loop after receiving",
@@ -257,6 +258,143 @@ def judge(seed, script, obs):
     return out
 
 
+# ---------------------------------------------------------------- peer lifecycle (sequential): peers finish, new peers connect
+class _LifeSock(PeerSock):
+    """PeerSock + the calls Node.connect_peer makes on a fresh socket"""
+
+    def __init__(self, stream, holder):
+        super().__init__(stream, lambda: holder["thread"])
+        self.peer_addr = None
+
+    def connect(self, addr):
+        self.peer_addr = addr
+
+    def setblocking(self, flag):
+        pass
+
+    def settimeout(self, t):
+        pass
+
+    def getsockname(self):
+        return ("127.0.0.1", 50000)
+
+    def getpeername(self):
+        return self.peer_addr
+
+    def fileno(self):
+        return 9
+
+
+def chk_lifecycle(case):
+    """Node.connect_peer for real (socket and thread classes replaced by scripted ones), receive loops run one after the other.
+    case: {"seed", "first": [names per peer a, b, c], "exits": [bool per peer: its receive loop has run to its end before the
+    next connect], "late": names of the peer connected afterwards, "rest": ...}.  Oracle: every peer's replies go to ITS socket,
+    and no two peers whose messages are in the queue (or that are still connected) share a peer number."""
+    p2p = _p2p()
+    p2p.MAGIC_START_BYTES = MAGIC
+    seed = case["seed"]
+    real_socket, real_thread = p2p.socket.socket, p2p.PeerThread
+    pending = []          # scripted sockets handed out by the patched socket.socket(), in order
+    threads = []
+
+    class FakeThread:
+        def __init__(self, target=None, args=(), **kw):
+            self.target, self.args = target, args
+            self.exit_event = p2p.Event()
+            threads.append(self)
+
+        def start(self):
+            pass
+
+        def exit(self):
+            self.exit_event.set()
+
+        def join(self, *a):
+            pass
+
+        def is_alive(self):
+            return not self.exit_event.is_set()
+
+    class SockModule:
+        def __getattr__(self, name):
+            return getattr(__import__("socket"), name)
+
+        @staticmethod
+        def socket(*a, **kw):
+            return pending.pop(0)
+    peers = []            # {"label", "sock", "no", "msgs", "thread"}
+    out = []
+    node = p2p.Node()
+    saved_sockmod = p2p.socket
+    p2p.socket = SockModule()
+    p2p.PeerThread = FakeThread
+    try:
+        def connect(label, names):
+            holder = {}
+            msgs = [message(seed, nm, len(peers), i) for i, nm in enumerate(names)]
+            sock = _LifeSock(b"".join(R.frame(MAGIC, c, p_) for c, p_ in msgs), holder)
+            pending.append(sock)
+            before = set(node._peer_sockets)
+            n_thr = len(threads)
+            node.connect_peer("10.0.0.%d" % (len(peers) + 1), 8333)
+            new = [k for k, v in node._peer_sockets.items() if v is sock]
+            if len(new) != 1 or len(threads) != n_thr + 1:
+                raise RuntimeError(f"connect_peer did not register the new socket once: {new}")
+            holder["thread"] = threads[-1]
+            sock.sent.clear()          # (the version message connect_peer sends)
+            peers.append({"label": label, "sock": sock, "no": new[0], "msgs": msgs, "thread": threads[-1], "names": names, "ran": False})
+
+        def run(pr):
+            pr["ran"] = True
+            pr["thread"].target(*pr["thread"].args)
+        for label, names in zip("abc", case["first"]):
+            connect(label, names)
+        for pr, ex in zip(list(peers), case["exits"]):
+            if ex:
+                run(pr)
+        connect("d", case["late"])
+        for pr in peers:
+            if not pr["ran"]:
+                run(pr)
+    except Exception as e:
+        out.append(("C18/lifecycle/raised", f"{type(e).__name__}: {str(e)[:120]} (first={case['first']} exits={case['exits']} late={case['late']})"))
+    finally:
+        p2p.socket = saved_sockmod
+        p2p.PeerThread = real_thread
+    if out:
+        return out
+    tag = f"(peers a,b,c send {case['first']}, receive loops of {[l for l, e in zip('abc', case['exits']) if e]} end before peer d connects and sends {case['late']})"
+    # replies: to the peer that sent the request
+    for pr in peers:
+        exp_sent = []
+        for (c, pl) in pr["msgs"]:
+            if c == b"version":
+                exp_sent.append(R.frame(MAGIC, b"verack", b""))
+            elif c == b"ping":
+                exp_sent.append(R.frame(MAGIC, b"pong", pl))
+        if pr["sock"].sent != exp_sent:
+            out.append(("C18/lifecycle/reply-misdirected", f"peer {pr['label']} (number {pr['no']}) received {len(pr['sock'].sent)} replies, expected {len(exp_sent)} {tag}"))
+            break
+    # attribution: the peer numbers found in the queue must identify ONE peer each, and each peer's queued messages carry its number in order
+    nos = {}
+    for pr in peers:
+        nos.setdefault(pr["no"], []).append(pr["label"])
+    dup = {k: v for k, v in nos.items() if len(v) > 1}
+    q = list(node._msg_queue)
+    if dup and any(m[0] in dup for m in q):
+        out.append(("C18/lifecycle/peer-number-reused", f"peers {dup} share a peer number while messages attributed to it are in the queue {tag}"))
+    elif dup:
+        out.append(("C18/lifecycle/peer-number-reused", f"peers {dup} share a peer number {tag}"))
+    else:
+        for pr in peers:
+            want = [(pr["no"], c) for (c, pl) in pr["msgs"] if c not in (b"version", b"verack", b"ping")]
+            got = [(m[0], m[1]) for m in q if m[0] == pr["no"]]
+            if got != want:
+                out.append(("C18/lifecycle/queue", f"peer {pr['label']} (number {pr['no']}): queued {got}, expected {want} {tag}"))
+                break
+    return out
+
+
 def chk_schedule(case):
     want = WANT[case.get("scope")]
     opc = _opc_recv_loop if case.get("opcodes") else None
@@ -265,7 +403,7 @@ def chk_schedule(case):
     return judge(case["seed"], case["script"], obs)
 
 
-CASES = {"schedule": chk_schedule}
+CASES = {"schedule": chk_schedule, "lifecycle": chk_lifecycle}
 
 
 def run_case(kind, case):
@@ -304,6 +442,7 @@ def jobs(tier, seed):
     # a scheduling matter), and one such peer next to an ordinary one
     for a, b in ((["biginv"], ["biginv"]), (["biginv", "ping"], ["inv"])):
         js.append({"name": f"2x-big-node-frag40000/{'+'.join(a)}|{'+'.join(b)}", "script": [a, b], "scope": "recv", "chunk": 40000, "bound": 1, "nocache": True, "weight": 12})
+    js.append({"name": "lifecycle", "part": "lifecycle", "weight": 3})
     names3 = ["ping", "inv", "unknown"] if tier == "quick" else ["ping", "version", "inv", "unknown"]
     triples = list(itertools.product(names3, repeat=3))
     if tier == "quick":
@@ -326,6 +465,23 @@ def jobs(tier, seed):
 
 
 def run_job(job):
+    if job.get("part") == "lifecycle":
+        # every subset of three connected peers whose receive loops have ended before a fourth peer connects x message scripts
+        acc = Acc(job)
+        scripts = [["inv"], ["ping", "inv"], ["version", "unknown"], []]
+        for first in itertools.product(scripts[:3], repeat=3):
+            for exits in itertools.product([False, True], repeat=3):
+                for late in (["inv"], ["ping", "unknown"]):
+                    acc.evaluations += 1
+                    acc.executions += 1
+                    acc.states += 1
+                    acc.transitions += 4
+                    acc.nontrivial += 1
+                    if any(exits) and not all(exits):
+                        acc.ob("peer_gone_while_others_live")
+                    acc.check("lifecycle", {"seed": job["seed"], "first": [list(x) for x in first], "exits": list(exits), "late": late}, chk_lifecycle)
+        acc.sample({"lifecycle": "3 peers x 3 scripts each x 8 exit subsets x 2 late-peer scripts"})
+        return acc.result()
     acc = Acc(job)
     seed, script = job["seed"], job["script"]
     want = WANT[job.get("scope")]
